@@ -7,7 +7,7 @@ CHECK = {'level': 'exploration',
          'renew(0|small|huge) / age-stored-records(10s|500s|2000s)+restart / restart on 6 credential kinds on a real '
          'Core; every renew response and every stored lease is checked against issue+effective max, expired leases '
          'must refuse renewal and be revoked, and the stored-lease = tracked-lease invariant must hold in every state. '
-         'K: crash after every durable mutation of renew and revoke, restart, invariant. Z: BFS (depth 3/4) over histories of a namespace with its own seal (issue token / secret in it, in its child and in the root namespace, renew, age the stored records, seal, unseal, restart and the composites seal+unseal, age+seal+unseal, age+restart+unseal): stored = tracked whenever the namespace is unsealed (outside the sealed subtree while it is sealed), every pending lease has an armed timer or a queued revocation, leases that expired across a sealed period are revoked after the unseal. distinct non-trivial = '
+         'K: crash after every durable mutation of renew and revoke, restart, invariant. Z: BFS (depth 3/4) over histories of a namespace with its own seal (issue token / secret in it, in its child and in the root namespace, renew, age the stored records, seal, unseal, restart and the composites seal+unseal, age+seal+unseal, age+restart+unseal): stored = tracked whenever the namespace is unsealed (outside the sealed subtree while it is sealed), every pending lease has an armed timer or a queued revocation, leases that expired across a sealed period are revoked after the unseal. W: a renewal racing the lease restore of a restart: one restore worker is pinned right after its read of the lease record, a renewal is issued, the worker released (both possible orders); afterwards the tracked expiry must equal the stored one. distinct non-trivial = '
          'distinct (outcome class, which bounds are active) / model states',
  'assumptions': ['time passing is simulated by rewriting issue/expire times of the stored lease records through '
                  'sys/raw and restarting (no clock seam); every time-bound oracle carries a slack of 2 s',
